@@ -8,7 +8,7 @@
 
    What is proved, for the trampoline path (classification of arbitrary bytes is a total function: C13/C18; the
    non-trampoline answers are immediate):
-     exactly one   — an accepted HTLC is answered in the very step it arrives, or is held (C06_held_or_answered); answers
+     exactly one   — an accepted HTLC is held from the step it arrives (C06_held_or_answered, C06_poll_held_or_answered); answers
                      go to ALL held HTLCs of the hash at once and the entry is dropped in the same step, so nobody is
                      answered twice (C06_answered_together_once);
      no panic      — no lifecycle ever panics (C06_no_panic);
@@ -27,6 +27,13 @@ Theorem C06_held_or_answered : forall c s h,
   (exists en, entry_ (pl (fst (step c s (EvHtlc h)))) = Some en /\ In h (listeners en)) \/
   (exists r, In (OResp (hid h) r) (snd (step c s (EvHtlc h)))).
 Proof. exact htlc_held_or_answered. Qed.
+
+(* when the lifecycle looks at its queues the set stays held as it is, or every held HTLC is answered *)
+Theorem C06_poll_held_or_answered : forall c s sel en,
+  entry_ (pl s) = Some en ->
+  (exists en', entry_ (pl (fst (step c s (EvPoll sel)))) = Some en' /\ listeners en' = listeners en) \/
+  (exists r, forall h, In h (listeners en) -> In (OResp (hid h) r) (snd (step c s (EvPoll sel)))).
+Proof. exact poll_held_or_answered. Qed.
 
 Theorem C06_answered_together_once : forall c s ev,
   resps (snd (step c s ev)) = [] \/
